@@ -121,6 +121,10 @@ def step (s : S) (line : String) : S × String :=
     match s.kh2 with
     | some k2 => ({ s with kh := k2, kh2 := some s.kh }, "ok")
     | none => (s, "bad-op")
+  | "jhash" :: _ =>
+    match argHex? ws "key", argNat? ws "size" with
+    | some k, some sz => (s, s!"ok jh={Keyhash.jenkins k sz} js={Keyhash.jenkins (asCStr k) sz}")
+    | _, _ => (s, "bad-op")
   | "kh_sizes" :: _ => (s, s!"ok hashsize={s.kh.hashsize} kalloc={s.kh.kalloc} salloc={s.kh.salloc} sn={s.kh.smem.size}")
   -- ---------------- heap
   | "heap_new" :: _ => ({ s with heap := Heap.create ((argNat? ws "max").getD 0 == 1) }, "ok")
